@@ -191,7 +191,7 @@ def run_query(sim, yp, name, qargs, ctl, k, mode, fault, cap=ANSWER_CAP):
     return ans, end, info
 
 
-def run_bystander(sim, yp, name, qargs, ctl, k, mode, order, kind, log):
+def run_bystander(sim, yp, name, qargs, ctl, k, mode, order, kind, log, qvars=None):
     """the query and an independent generator over variables of its own are suspended at the same time and do not
     end in LIFO order.  returns (answers of the query, end, info) or (None, None, None) after logging a violation"""
     from yldprolog.engine import unify
@@ -200,7 +200,21 @@ def run_bystander(sim, yp, name, qargs, ctl, k, mode, order, kind, log):
     ctl['calls'] = 0
     ctl['fired'] = 0
 
+    want_box = [[('a', 'z'), ('a', 'y')]]
+
     def start_bystander():
+        if kind == 'shared':
+            # a variable of the query's arguments that is unbound at the query's current answer gets bound by someone else
+            from yldprolog.engine import Variable
+            for v in (qvars or {}).values():
+                w = v.get_value()
+                if isinstance(w, Variable):
+                    t = GenTask(unify(w, yp.atom('z')))
+                    if not t.step():
+                        raise Discard('bystander-has-no-answer')
+                    want_box[0] = [('a', 'z')]
+                    log.count('bystander_binds_variable_left_unbound_by_the_answer')
+                    return t, (w,)
         z1, z2 = yp.variable(), yp.variable()
         if kind == 'unify':
             g = unify(yp.functor('bys', [z1, yp.atom('k'), yp.functor('w', [z2])]), yp.functor('bys', [yp.atom('z'), yp.atom('k'), yp.functor('w', [yp.atom('y')])]))
@@ -216,7 +230,6 @@ def run_bystander(sim, yp, name, qargs, ctl, k, mode, order, kind, log):
 
     def bystander_state(zs):
         return [TM.observe(z, sim.idx) for z in zs]
-    want = [('a', 'z'), ('a', 'y')]
     task = GenTask(yp.query(name, qargs))
     ans = []
     end = None
@@ -229,7 +242,7 @@ def run_bystander(sim, yp, name, qargs, ctl, k, mode, order, kind, log):
                 end = 'exhausted'
                 break
             ans.append(observe_answer(sim, qargs))
-            if order == 'inner' and len(ans) == 1:
+            if order == 'inner' and len(ans) == (k if kind == 'shared' else 1):
                 bt, zs = start_bystander()
         if order == 'inner' and not ans:
             bt, zs = start_bystander()
@@ -249,6 +262,7 @@ def run_bystander(sim, yp, name, qargs, ctl, k, mode, order, kind, log):
                     if o[0] == 'dropped':
                         info['dead'] = o[1]
                     end = 'bystander-' + mode
+            want = want_box[0]
             if bystander_state(zs) != want:
                 log.violation('other-generator-lost-its-bindings', {'fault': ['bystander', k, mode, order, kind], 'bystander_variables': [TM.show(x) for x in bystander_state(zs)],
                                                                     'expected': [TM.show(x) for x in want], 'note': 'ending the query changed variables it never touched'})
@@ -433,13 +447,20 @@ def execute(plan):
             # while the query is suspended at its k-th answer ('outer': it was started before the query)
             faults += [['bystander', k, ('close', 'drop', 'throw', 'resume')[(k + i) % 4], ('inner', 'outer')[i], ('unify', 'fact')[(k + i // 2) % 2]]
                        for k in range(min(n, 3) + 1) for i in range(2)]
+            # ... and one that binds a variable of the query's own arguments which the query's current answer leaves unbound
+            faults += [['bystander', k, ('close', 'drop', 'resume', 'throw')[k % 4], 'inner', 'shared'] for k in range(1, min(n, 3) + 1)]
         else:
             faults = plan['faults']
         for fault in faults:
             log.count('cases')
             if fault[0] == 'abandon':
                 k, mode = min(fault[1], n), fault[2]
-                ans, end, info = run_query(sim, yp, name, qargs, ctl, k, mode, None)
+                # a drop is judged on exactly the object YP.query returned (no monitor wrapper around it)
+                sim.monitor = mode != 'drop'
+                try:
+                    ans, end, info = run_query(sim, yp, name, qargs, ctl, k, mode, None)
+                finally:
+                    sim.monitor = True
                 log.count('fault_' + mode)
                 if info.get('bound', 0) > base_bound:
                     log.count('abandoned_with_bound_vars')
@@ -472,7 +493,7 @@ def execute(plan):
                 if yielded:
                     log.key((shape, 'unify', fault[3], fault[2], core.short_hash(pair)))
             elif fault[0] == 'bystander':
-                ans, end, info = run_bystander(sim, yp, name, qargs, ctl, min(fault[1], n), fault[2], fault[3], fault[4], log)
+                ans, end, info = run_bystander(sim, yp, name, qargs, ctl, min(fault[1], n), fault[2], fault[3], fault[4], log, qvars)
                 if ans is None:
                     return log.result()
                 log.count('fault_bystander_' + fault[3])
